@@ -73,4 +73,32 @@ func init() {
 		Runs:        map[string]int{"quick": 20000, "thorough": 500000},
 		WantProbes:  []string{"combine-checked"},
 	})
+	sim.Register(&sim.Prop{
+		ID:           "C06b",
+		Level:        "exploration",
+		Tool:         "encrypt",
+		FatalNoClaim: true,
+		Rule: "sub-world of C06: the clear production of the C06 world is pushed through mp4ff-encrypt's own encryptFile(ifh io.Reader, ofh io.Writer, ...) between a simulated input stream (seeded delivery; EIO at read k in the fault configuration) and a simulated sink (write k fails / device full): whole file in one call, or init first and then every media segment against the protected init (-init flow); " +
+			"whenever it returns nil the output is decrypted with the library and must satisfy the C06 oracles against the clear encoding; nil after a failed read or write is a violation, an error without any injected fault too.",
+		Assumptions: []string{"an error under an injected fault imposes nothing", "flag parsing / os files of run() are not exercised here"},
+		Real:        []string{"cmd/mp4ff-encrypt: encryptFile; mp4ff packages"},
+		Stub:        []string{"input stream (SimDisk handle behind io.Reader)", "output file (sink with write faults)", "virtual device time"},
+		RealNoFault: realNoFault,
+		Runs:        map[string]int{"quick": 60000, "thorough": 4000000},
+		WantFaults:  []string{"read-eio", "write-eio", "write-full", "read-short"},
+	})
+	sim.Register(&sim.Prop{
+		ID:           "C06c",
+		Level:        "exploration",
+		Tool:         "decrypt",
+		FatalNoClaim: true,
+		Rule: "sub-world of C06: the encrypted production of the C06 world is pushed through mp4ff-decrypt's own decryptFile(r, initR io.Reader, w io.Writer, key) between simulated input streams (media and separately delivered init; seeded delivery; EIO in the fault configuration) and a simulated sink (write faults): whole file, or media segments on their own in seeded order with repeats, each against the separately delivered init; " +
+			"whenever it returns nil the output must satisfy the C06 oracles against the clear encoding; nil after a failed read or write is a violation, an error without any injected fault too.",
+		Assumptions: []string{"an error under an injected fault imposes nothing", "the tool re-encodes in segment mode: top-level foreign boxes are outside the inventory"},
+		Real:        []string{"cmd/mp4ff-decrypt: decryptFile; mp4ff packages"},
+		Stub:        []string{"input streams (SimDisk handles behind io.Reader)", "output file (sink with write faults)", "segment fetch order / repeats", "virtual device time"},
+		RealNoFault: realNoFault,
+		Runs:        map[string]int{"quick": 60000, "thorough": 4000000},
+		WantFaults:  []string{"read-eio", "write-eio", "write-full", "read-short", "segment-reordered"},
+	})
 }
